@@ -381,6 +381,33 @@ pub fn generate(thorough: bool, seed: u64, em: &mut Emitter) {
             em.case("misc", json!({"s": s, "cnf": {"kty": "RSA", "n": s, "e": s}}));
         }
     }
+    // RSA holder keys whose exponent has 0 to 300 octets (and a modulus of any length), with and without a KB-JWT attached
+    {
+        let b64 = |bytes: &[u8]| indep::b64url_encode(bytes);
+        let jwk = crate::keys::rsa_jwk();
+        let kbs = ["a.b.c".to_string(), sign_hs256(&json!({"nonce": "0123456789abcdef", "aud": "v", "iat": 1, "sd_hash": "x"})), String::new()];
+        for len in [0usize, 1, 2, 3, 4, 5, 7, 8, 9, 10, 16, 17, 32, 33, 64, 65, 255, 256, 257, 300] {
+            for fill in [0u8, 1, 0xff] {
+                let mut e = vec![fill; len];
+                if let Some(l) = e.last_mut() { *l |= 1; }
+                for n in [jwk["n"].clone(), json!(b64(&vec![0xffu8; len]))] {
+                    let cnf = json!({"kty": "RSA", "n": n, "e": b64(&e)});
+                    for kb in &kbs {
+                        em.case("misc", json!({"s": kb, "cnf": cnf}));
+                    }
+                    let member = indep::b64url_encode(serde_json::to_string(&json!(["c2FsdHNhbHRzYWx0c2FsdA", "k", 1])).unwrap().as_bytes());
+                    let payload = json!({"_sd": [indep::hash("sha-256", &member)], "_sd_alg": "sha-256", "cnf": cnf});
+                    let jwt = sign_hs256(&payload);
+                    for kb in &kbs {
+                        let s = presentation_string(&jwt, &[member.clone()], kb);
+                        let mut c = untrusted_case(&s, true, "cnf_exponent_length");
+                        c["nontrivial"] = json!(true);
+                        em.case("verify", c);
+                    }
+                }
+            }
+        }
+    }
     // huge lists: 10^4 disclosures, _sd with 10^5 entries
     em.case("misc", json!({"gen": "huge_lists"}));
     // (iii) compounded nesting in a child process
